@@ -219,7 +219,7 @@ def c02(pid, tier, seed):
     cov["schedule_clause"] = {"runs": sc["runs"], "clause_counts": sc["stats"], "sample": sc["sample"]}
     res["failures"] += sc["fails"]
     # suspend / println / finish of one thread against draws of another: the final screen is that of some sequential order
-    return add_final_state_clause(res, pid, tier, seed, [("multi", 4, False)] if q else [("multi", 6, True)])
+    return add_final_state_clause(res, pid, tier, seed, [("multi", 4, False), ("multi_ticker", 4, False)] if q else [("multi", 6, True), ("multi_ticker", 8, False)])
 
 
 def c03(pid, tier, seed):
@@ -247,7 +247,7 @@ def c03(pid, tier, seed):
     res = screen_check(pid, tier, seed, fams,
                         "histories of MC_Screen interleaving println/suspend with bar life-cycles, with exhausted limiters; LogOK = every emitted line once, in order, above the region")
     # lines of suspend closures and println calls against draws from another thread (a scheduling point before every line of a closure)
-    return add_final_state_clause(res, pid, tier, seed, [("single", 4, False), ("single_ticker", 4, False), ("multi", 4, False)] if q else [("single", 5, True), ("single_ticker", 8, False), ("multi", 5, True)])
+    return add_final_state_clause(res, pid, tier, seed, [("single", 4, False), ("single_ticker", 4, False), ("multi", 4, False), ("multi_ticker", 4, False)] if q else [("single", 5, True), ("single_ticker", 8, False), ("multi", 5, True), ("multi_ticker", 8, False)])
 
 
 def c04(pid, tier, seed):
